@@ -272,6 +272,47 @@ def work_broken(chunk, st):
             st.violation('broken:%s:no-report-but-status-%s' % (fmt, res.status), {'arch': arch, 'plan': plan, 'fmt': fmt, 'stdout_tail': res.stdout[-300:]})
 
 
+# ---- the same target listed more than once in one -T run, its scans ending differently (the peer breaks one of its handshakes):
+# a broken scan is a broken scan wherever it stands in the list - the run does not exit 0, 2 or 3
+def repeat_tasks():
+    out = []
+    faults = [(0, ('reset',)), (1, ('trunc_close', 9)), (1, ('garbage', 40, 3)), (0, ('trunc_stall', 4)), (1, ('len', 0, 'plus1'))]
+    for shape in (('X', 'X'), ('X', 'X', 'X'), ('X', 'Y', 'X'), ('Y', 'X', 'X')):
+        nx = shape.count('X')
+        for broken in range(nx):
+            for msg, fault in faults:
+                for fmt in ('text', 'json'):
+                    out.append((shape, broken, msg, fault, fmt))
+    return out
+
+
+def work_repeats(chunk, st):
+    import socket as _socket
+    from mc import runner, sched as _sched, vnet
+    from props import multitarget as MT
+    for shape, broken, msg, fault, fmt in chunk:
+        def mkx():
+            return peer.Server(label='X', kex=['curve25519-sha256'], key=['ssh-ed25519'], enc=['aes256-ctr'], mac=['hmac-sha2-256'], host_keys=peer.standard_host_keys(['ssh-ed25519']))
+        # connections one scan of X takes when nothing goes wrong (its broken scan takes exactly one)
+        per_scan = len(H.audit(mkx(), opts=['-n', '--skip-rate-test']).world.conns)
+        x = mkx()
+        y = peer.Server(label='Y', kex=['curve25519-sha256'], key=['ssh-ed25519'], enc=['aes256-gcm@openssh.com'], mac=['hmac-sha2-256-etm@openssh.com'], host_keys=peer.standard_host_keys(['ssh-ed25519']))
+        w = vnet.World(servers={('10.7.0.1', 22): x, ('10.7.0.2', 22): y}, resolver={'x.example': [(int(_socket.AF_INET), '10.7.0.1')], 'y.example': [(int(_socket.AF_INET), '10.7.0.2')]})
+        w.faults = {('X', per_scan * broken, msg): fault}
+        lines = ['x.example' if t == 'X' else 'y.example' for t in shape]
+        res, _s = _sched.run_scheduled(runner.run_cli, ['-n', '--skip-rate-test'] + (['-j'] if fmt == 'json' else []) + ['-T', MT.targets_file(lines), '--threads', '1'], w, (), ('connect',))
+        root = ('repeat', shape, broken, msg, fault, fmt)
+        st.execution(res.world, outcome=('repeat', res.status, fmt), root=root, nontrivial=root)
+        hit = any(ev[0] == 'fault' for r in x.records for ev in r.get('events', []) if isinstance(ev, tuple))
+        d = {'targets': lines, 'broken_scan_of_x': broken, 'fault': [msg] + list(fault), 'fmt': fmt, 'status': res.status, 'fault_applied': hit}
+        if res.hang or res.exc:
+            st.violation('repeated-target:hang-or-exception', dict(d, hang=res.hang, exc=res.exc))
+            continue
+        if hit and res.status in (0, 2, 3):
+            st.violation('repeated-target:broken-scan-but-status-%s' % res.status, dict(d, stdout_tail=res.stdout[-200:]))
+    st.sample({'repeated_target': [list(chunk[0][0]), chunk[0][1]]}, cap=4)
+
+
 def _json_has_report(stdout, adv):
     dec = json.JSONDecoder()
     s = stdout.lstrip()
@@ -398,6 +439,7 @@ def run(tier, seed):
     from props import zoo
     par.pmap(work_zoo, zoo.names(tier), stats=st, chunk=6)
     par.pmap(work_broken, broken_tasks(tier), stats=st)
+    par.pmap(work_repeats, repeat_tasks(), stats=st, chunk=4)
     par.pmap(work_policy, policy_cases(), stats=st, procs=1)
     vcases = []
     for sel in H.pick(sorted(sev), seed, 12 if tier == 'quick' else 60):
